@@ -187,6 +187,15 @@ Theorem C05_invcdf_special_values : forall p : Q,
 Proof. exact invcdf_special_values. Qed.
 Print Assumptions C05_invcdf_special_values.
 
+(* the interior probabilities are split into Acklam's three regions by the float64 constants
+   plow = 0.02425 and phigh = 1 - plow (this is what the coverage tags of the check report) *)
+Theorem C05_invcdf_regions : forall p : Q,
+  (invcdf_region_of p = RLow <-> p < acklam_plow) /\
+  (invcdf_region_of p = RHigh <-> acklam_phigh < p) /\
+  (invcdf_region_of p = RCentral <-> acklam_plow <= p <= acklam_phigh).
+Proof. exact invcdf_regions. Qed.
+Print Assumptions C05_invcdf_regions.
+
 (* non-vacuity *)
 Example C05_delta_example :
   delta_cdf (XFin 2) (XFin 2) = XFin 1 /\ delta_cdf (XFin 2) (XFin (3 # 2)) = XFin 0 /\
